@@ -42,8 +42,14 @@ Proof. destruct t, wt; reflexivity. Qed.
 Definition pool_ok (tr : list event) (hc : hostclient) : Prop :=
   forall c, In c (hc_pool hc) -> In (EDial (c_id c) (hc_addr hc) (hck hc)) tr.
 
-Definition map_ok (cwt tls : bool) (tr : list event) (m : hmap) : Prop :=
-  forall k hc, In (k, hc) m -> hc_tls hc = tls /\ hc_wt hc = cwt /\ hc_addr hc = AddMissingPort k tls /\ pool_ok tr hc.
+Definition confT := hostclient -> option hostclient.
+
+(* hc has the configuration ConfigureClient left on the HostClient built for (key, tls) *)
+Definition created (conf : confT) (cwt : bool) (k : bytes) (tls : bool) (hc : hostclient) : Prop :=
+  exists hx, conf (dflt k tls cwt) = Some hx /\ hc_addr hc = hc_addr hx /\ hc_tls hc = hc_tls hx /\ hc_wt hc = hc_wt hx.
+
+Definition map_ok (conf : confT) (cwt tls : bool) (tr : list event) (m : hmap) : Prop :=
+  forall k hc, In (k, hc) m -> created conf cwt k tls hc /\ pool_ok tr hc.
 
 Definition fresh (tr : list event) (next : N) : Prop :=
   forall cid a t, In (EDial cid a t) tr -> cid < next.
@@ -55,31 +61,32 @@ Definition hc_rel (tr : list event) (p : hcfg) (hc : hostclient) : Prop :=
   hc_addr hc = fst (fst p) /\ hc_tls hc = snd (fst p) /\ hc_wt hc = snd p /\ pool_ok tr hc.
 
 (* where a written request may have gone *)
-Definition write_ok (cwt : bool) (hcs0 : list hcfg) (tr : list event) (cid : N) (r : req) : Prop :=
+Definition write_ok (conf : confT) (cwt : bool) (hcs0 : list hcfg) (tr : list event) (cid : N) (r : req) : Prop :=
   exists addr wt, In (EDial cid addr (dialAddr (isHTTPS (r_scheme r)) wt)) tr /\
     match r_via r with
-    | ViaClient => addr = AddMissingPort (r_host r) (isHTTPS (r_scheme r)) /\ wt = cwt
+    | ViaClient => exists hx, conf (dflt (r_host r) (isHTTPS (r_scheme r)) cwt) = Some hx /\
+                              addr = hc_addr hx /\ wt = hc_wt hx /\ hc_tls hx = isHTTPS (r_scheme r)
     | _ => exists i, nth_error hcs0 i = Some (addr, isHTTPS (r_scheme r), wt)
     end.
 
 Record Inv (hcs0 : list hcfg) (w : world) (tr : list event) : Prop := {
-  inv_m : map_ok (w_cwt w) false tr (w_m w);
-  inv_ms : map_ok (w_cwt w) true tr (w_ms w);
+  inv_m : map_ok (w_conf w) (w_cwt w) false tr (w_m w);
+  inv_ms : map_ok (w_conf w) (w_cwt w) true tr (w_ms w);
   inv_hcs : Forall2 (hc_rel tr) hcs0 (w_hcs w);
   inv_fresh : fresh tr (w_next w);
   inv_fun : dials_fun tr;
-  inv_writes : forall cid r, In (EWrite cid r) tr -> write_ok (w_cwt w) hcs0 tr cid r }.
+  inv_writes : forall cid r, In (EWrite cid r) tr -> write_ok (w_conf w) (w_cwt w) hcs0 tr cid r }.
 
 (* monotonicity in the trace *)
 Lemma pool_ok_mono tr evs hc : pool_ok tr hc -> pool_ok (tr ++ evs) hc.
 Proof. intros H c Hc. apply in_or_app. left. now apply H. Qed.
-Lemma map_ok_mono cwt tls tr evs m : map_ok cwt tls tr m -> map_ok cwt tls (tr ++ evs) m.
-Proof. intros H k hc Hin. destruct (H k hc Hin) as (A & B & C & D). repeat split; auto using pool_ok_mono. Qed.
+Lemma map_ok_mono conf cwt tls tr evs m : map_ok conf cwt tls tr m -> map_ok conf cwt tls (tr ++ evs) m.
+Proof. intros H k hc Hin. destruct (H k hc Hin) as (A & B). split; auto using pool_ok_mono. Qed.
 Lemma hc_rel_mono tr evs p hc : hc_rel tr p hc -> hc_rel (tr ++ evs) p hc.
 Proof. intros (A & B & C & D). repeat split; auto using pool_ok_mono. Qed.
 Lemma hcs_mono tr evs l0 l : Forall2 (hc_rel tr) l0 l -> Forall2 (hc_rel (tr ++ evs)) l0 l.
 Proof. induction 1; constructor; auto using hc_rel_mono. Qed.
-Lemma write_ok_mono cwt hcs0 tr evs cid r : write_ok cwt hcs0 tr cid r -> write_ok cwt hcs0 (tr ++ evs) cid r.
+Lemma write_ok_mono conf cwt hcs0 tr evs cid r : write_ok conf cwt hcs0 tr cid r -> write_ok conf cwt hcs0 (tr ++ evs) cid r.
 Proof. intros (a & wt & H1 & H2). exists a, wt. split; [apply in_or_app; now left | exact H2]. Qed.
 
 (* ---- one attempt ------------------------------------------------------------------------------------------ *)
@@ -283,53 +290,57 @@ Qed.
 Lemma quiet_one r e : quiet [ERefuse r e].
 Proof. intros x [<-|[]]. eauto. Qed.
 
+Definition same_cfg (w1 w : world) : Prop := w_cwt w1 = w_cwt w /\ w_conf w1 = w_conf w.
+
 Lemma client_do_inv hcs0 w tr r reps w1 evs out :
   r_via r = ViaClient -> Inv hcs0 w tr -> client_do w r reps = (w1, evs, out) ->
-  Inv hcs0 w1 (tr ++ evs) /\ w_cwt w1 = w_cwt w.
+  Inv hcs0 w1 (tr ++ evs) /\ same_cfg w1 w.
 Proof.
   intros Hvia HI. unfold client_do.
-  destruct (contains COMMA (r_host r)); [intros [= <- <- <-]; split; [apply quiet_inv; auto using quiet_one | reflexivity]|].
+  destruct (contains COMMA (r_host r)); [intros [= <- <- <-]; split; [apply quiet_inv; auto using quiet_one | split; reflexivity]|].
   destruct (negb (isHTTPS (r_scheme r)) && negb (isHTTP (r_scheme r)));
-    [intros [= <- <- <-]; split; [apply quiet_inv; auto using quiet_one | reflexivity]|].
+    [intros [= <- <- <-]; split; [apply quiet_inv; auto using quiet_one | split; reflexivity]|].
   set (tls := isHTTPS (r_scheme r)).
   set (m := if tls then w_ms w else w_m w).
-  set (hc := match lookup (r_host r) m with Some hc => hc
-             | None => {| hc_addr := AddMissingPort (r_host r) tls; hc_tls := tls; hc_wt := w_cwt w; hc_pool := [] |} end).
-  assert (Hm : map_ok (w_cwt w) tls tr m) by (destruct HI; subst m; destruct tls; auto).
-  assert (Hhc : hc_tls hc = tls /\ hc_wt hc = w_cwt w /\ hc_addr hc = AddMissingPort (r_host r) tls /\ pool_ok tr hc).
-  { subst hc. destruct (lookup (r_host r) m) eqn:El.
-    - apply lookup_in in El. apply (Hm _ _ El).
-    - cbn. repeat split. intros c []. }
-  destruct Hhc as (Htls & Hwt & Haddr & Hpool).
+  assert (Hm : map_ok (w_conf w) (w_cwt w) tls tr m) by (destruct HI; subst m; destruct tls; auto).
+  set (found := match lookup (r_host r) m with Some hc => Some hc | None => _ end).
+  assert (Hf : forall hc, found = Some hc -> created (w_conf w) (w_cwt w) (r_host r) tls hc /\ pool_ok tr hc).
+  { subst found. destruct (lookup (r_host r) m) eqn:El.
+    - intros hc [= <-]. apply lookup_in in El. apply (Hm _ _ El).
+    - destruct (w_conf w (dflt (r_host r) tls (w_cwt w))) as [hx|] eqn:Ec; [|discriminate].
+      intros hc [= <-]. split; [exists hx; cbn; auto | intros c []]. }
+  destruct found as [hc|]; [|intros [= <- <- <-]; split; [apply quiet_inv; auto using quiet_one | split; reflexivity]].
+  destruct (Hf hc eq_refl) as (Hcr & Hpool).
   destruct (hc_do hc r reps (w_next w)) as [[[hc1 next1] evs1] out1] eqn:Hdo.
-  intros [= <- <- <-]. split; [|reflexivity].
+  intros [= <- <- <-]. split; [|split; reflexivity].
   destruct HI as [Im Ims Ihcs Ifresh Ifun Iwr].
   pose proof (hc_attempts_ok _ _ _ _ _ _ _ _ _ _ Hpool Ifresh Ifun Hdo) as (A & B & W & C & D & E & F & G).
-  assert (Hm1 : map_ok (w_cwt w) tls (tr ++ evs1) (upd (r_host r) hc1 m)).
+  assert (Hm1 : map_ok (w_conf w) (w_cwt w) tls (tr ++ evs1) (upd (r_host r) hc1 m)).
   { intros k' hc' Hin. apply upd_in in Hin as [Hin|[-> ->]].
-    - apply (map_ok_mono _ _ _ _ _ Hm _ _ Hin).
-    - split; [congruence|]. split; [congruence|]. split; [congruence|]. exact C. }
-  constructor; cbn [w_cwt w_m w_ms w_hcs w_next]; auto using hcs_mono.
+    - apply (map_ok_mono _ _ _ _ _ _ Hm _ _ Hin).
+    - split; [|exact C]. destruct Hcr as (hx & X1 & X2 & X3 & X4). exists hx. repeat split; congruence. }
+  constructor; cbn [w_cwt w_conf w_m w_ms w_hcs w_next]; auto using hcs_mono.
   - destruct tls eqn:Et; [apply map_ok_mono; auto | exact Hm1].
   - destruct tls eqn:Et; [exact Hm1 | apply map_ok_mono; auto].
   - intros cid r' Hin. apply in_app_or in Hin as [Hin|Hin]; [apply write_ok_mono; auto|].
     destruct (G _ _ Hin) as (-> & Heq & Hd). exists (hc_addr hc), (hc_wt hc).
-    unfold hck in Hd. rewrite Htls in Hd. fold tls. split; [exact Hd|].
-    rewrite Hvia. split; [exact Haddr | exact Hwt].
+    unfold hck in Hd. rewrite Heq in Hd. split; [exact Hd|].
+    rewrite Hvia. destruct Hcr as (hx & X1 & X2 & X3 & X4). exists hx. fold tls.
+    split; [exact X1|]. split; [exact X2|]. split; [exact X4|]. rewrite <- X3. exact Heq.
 Qed.
 
 Lemma host_do_inv i hcs0 w tr r reps w1 evs out :
   r_via r <> ViaClient -> Inv hcs0 w tr -> host_do i w r reps = (w1, evs, out) ->
-  Inv hcs0 w1 (tr ++ evs) /\ w_cwt w1 = w_cwt w.
+  Inv hcs0 w1 (tr ++ evs) /\ same_cfg w1 w.
 Proof.
   intros Hvia HI. unfold host_do.
   destruct (nth_error (w_hcs w) i) as [hc|] eqn:En.
   - destruct (hc_do hc r reps (w_next w)) as [[[hc1 next1] evs1] out1] eqn:Hdo.
-    intros [= <- <- <-]. split; [|reflexivity].
+    intros [= <- <- <-]. split; [|split; reflexivity].
     destruct HI as [Im Ims Ihcs Ifresh Ifun Iwr].
     destruct (Forall2_nth _ _ _ _ _ Ihcs En) as (p & Hp & Hrel). destruct Hrel as (Ra & Rt & Rw & Rp).
     pose proof (hc_attempts_ok _ _ _ _ _ _ _ _ _ _ Rp Ifresh Ifun Hdo) as (A & B & W & C & D & E & F & G).
-    constructor; cbn [w_cwt w_m w_ms w_hcs w_next]; auto using map_ok_mono.
+    constructor; cbn [w_cwt w_conf w_m w_ms w_hcs w_next]; auto using map_ok_mono.
     + eapply Forall2_set_nth; eauto using hc_rel_mono.
       intros x Hx _. rewrite Hp in Hx. injection Hx as <-. unfold hc_rel.
       split; [congruence|]. split; [congruence|]. split; [congruence|]. exact C.
@@ -339,20 +350,19 @@ Proof.
       assert (X : exists j, nth_error hcs0 j = Some (hc_addr hc, isHTTPS (r_scheme r), hc_wt hc)).
       { exists i. rewrite Hp. destruct p as [[pa pt] pw]. cbn [fst snd] in Ra, Rt, Rw. rewrite <- Ra, <- Rt, <- Rw, <- Heq. reflexivity. }
       destruct (r_via r); [contradiction|exact X|exact X].
-  - intros [= <- <- <-]. split; [apply quiet_inv; auto using quiet_one | reflexivity].
+  - intros [= <- <- <-]. split; [apply quiet_inv; auto using quiet_one | split; reflexivity].
 Qed.
 
-Definition InvC (hcs0 : list hcfg) (cwt : bool) (w : world) (tr : list event) : Prop := Inv hcs0 w tr /\ w_cwt w = cwt.
 
 Lemma follow_inv (P : req -> Prop) (d : doer) hcs0 :
   (forall w tr r reps w1 evs out, P r -> Inv hcs0 w tr -> d w r reps = (w1, evs, out) ->
-                                  Inv hcs0 w1 (tr ++ evs) /\ w_cwt w1 = w_cwt w) ->
+                                  Inv hcs0 w1 (tr ++ evs) /\ same_cfg w1 w) ->
   forall hops w tr count maxred w1 evs out,
     Forall (fun h => P (fst h)) hops -> Inv hcs0 w tr ->
-    follow d w hops count maxred = (w1, evs, out) -> Inv hcs0 w1 (tr ++ evs) /\ w_cwt w1 = w_cwt w.
+    follow d w hops count maxred = (w1, evs, out) -> Inv hcs0 w1 (tr ++ evs) /\ same_cfg w1 w.
 Proof.
   intros Hd. induction hops as [|[r reps] rest IH]; intros w tr count maxred w1 evs out HP HI; cbn [follow].
-  - intros [= <- <- <-]. now rewrite app_nil_r.
+  - intros [= <- <- <-]. rewrite app_nil_r. split; [assumption | split; reflexivity].
   - inversion HP as [|? ? Hr Hrest]; subst. cbn in Hr.
     destruct (d w r reps) as [[wa evsa] outa] eqn:Hda.
     pose proof (Hd _ _ _ _ _ _ _ Hr HI Hda) as (HIa & Hca).
@@ -361,7 +371,7 @@ Proof.
     destruct (count + 1 >? maxred)%Z; [intros [= <- <- <-]; auto|].
     destruct (follow d wa (h :: rest') (count + 1)%Z maxred) as [[wb evsb] outb] eqn:Hf.
     intros [= <- <- <-]. rewrite app_assoc.
-    destruct (IH _ _ _ _ _ _ _ Hrest HIa Hf) as (X & Y). split; [exact X | congruence].
+    destruct (IH _ _ _ _ _ _ _ Hrest HIa Hf) as (X & Y). split; [exact X | destruct Y, Hca; split; congruence].
 Qed.
 
 (* histories whose requests carry the tag of the API they are submitted through *)
@@ -373,7 +383,7 @@ Definition tagged (c : call) : Prop :=
   end.
 
 Lemma run_call_inv hcs0 w tr c w1 evs out :
-  tagged c -> Inv hcs0 w tr -> run_call w c = (w1, evs, out) -> Inv hcs0 w1 (tr ++ evs) /\ w_cwt w1 = w_cwt w.
+  tagged c -> Inv hcs0 w tr -> run_call w c = (w1, evs, out) -> Inv hcs0 w1 (tr ++ evs) /\ same_cfg w1 w.
 Proof.
   destruct c as [maxred hops|i maxred hops|i [r reps]]; cbn [run_call tagged]; intros Ht HI H.
   - eapply (follow_inv (fun r => r_via r = ViaClient) client_do); eauto. intros; eapply client_do_inv; eauto.
@@ -382,21 +392,21 @@ Proof.
 Qed.
 
 Lemma run_inv hcs0 : forall cs w tr w1 evs outs,
-  Forall tagged cs -> Inv hcs0 w tr -> run w cs = (w1, evs, outs) -> Inv hcs0 w1 (tr ++ evs) /\ w_cwt w1 = w_cwt w.
+  Forall tagged cs -> Inv hcs0 w tr -> run w cs = (w1, evs, outs) -> Inv hcs0 w1 (tr ++ evs) /\ same_cfg w1 w.
 Proof.
   induction cs as [|c rest IH]; intros w tr w1 evs outs Ht HI; cbn [run].
-  - intros [= <- <- <-]. now rewrite app_nil_r.
+  - intros [= <- <- <-]. rewrite app_nil_r. split; [assumption | split; reflexivity].
   - inversion Ht; subst.
     destruct (run_call w c) as [[wa evsa] outa] eqn:Hc.
     destruct (run wa rest) as [[wb evsb] outsb] eqn:Hr.
     intros [= <- <- <-]. rewrite app_assoc.
     destruct (run_call_inv _ _ _ _ _ _ _ H1 HI Hc) as (HIa & Hca).
-    destruct (IH _ _ _ _ _ H2 HIa Hr) as (X & Y). split; [exact X | congruence].
+    destruct (IH _ _ _ _ _ H2 HIa Hr) as (X & Y). split; [exact X | destruct Y, Hca; split; congruence].
 Qed.
 
-Lemma init_inv cwt hcs0 : Inv hcs0 (init cwt hcs0) [].
+Lemma init_inv cwt conf hcs0 : Inv hcs0 (init_conf cwt conf hcs0) [].
 Proof.
-  constructor; cbn [init w_cwt w_m w_ms w_hcs w_next].
+  constructor; cbn [init_conf w_cwt w_conf w_m w_ms w_hcs w_next].
   - intros k hc [].
   - intros k hc [].
   - induction hcs0 as [|p l IH]; cbn [map]; constructor; auto. unfold hc_rel, mk_hc. cbn. repeat split. intros c [].
@@ -405,11 +415,19 @@ Proof.
   - intros cid r [].
 Qed.
 
-Theorem trace_inv cwt hcs cs : Forall tagged cs -> exists w, Inv hcs w (trace cwt hcs cs) /\ w_cwt w = cwt.
+Theorem trace_inv cwt conf hcs cs : Forall tagged cs ->
+  exists w, Inv hcs w (trace_conf cwt conf hcs cs) /\ w_cwt w = cwt /\ w_conf w = conf.
 Proof.
-  intros Ht. unfold trace. destruct (run (init cwt hcs) cs) as [[w evs] outs] eqn:Hr. exists w. cbn.
-  change evs with ([] ++ evs). eapply run_inv in Hr; eauto using init_inv.
+  intros Ht. unfold trace_conf. destruct (run (init_conf cwt conf hcs) cs) as [[w evs] outs] eqn:Hr. exists w. cbn.
+  change evs with ([] ++ evs).
+  destruct (run_inv hcs cs _ [] _ _ _ Ht (init_inv cwt conf hcs) Hr) as (X & Y & Z). cbn in Y, Z. auto.
 Qed.
+
+(* ConfigureClient functions that leave the address alone (they may still flip IsTLS or the timeouts, or fail) *)
+Definition conf_keeps_addr (conf : confT) : Prop := forall hc hx, conf hc = Some hx -> hc_addr hx = hc_addr hc.
+
+Lemma conf_id_keeps_addr : conf_keeps_addr conf_id.
+Proof. intros hc hx [= <-]. reflexivity. Qed.
 
 (* ---- the specification's observation of a model trace ------------------------------------------------------- *)
 Definition via_clientb (r : req) : bool := match r_via r with ViaClient => true | _ => false end.
@@ -438,34 +456,54 @@ Proof.
   destruct Hin as [<-|[]]. cbn. eauto.
 Qed.
 
-(* for EVERY timeout configuration: cwt = (Client.WriteTimeout != 0), and each stand-alone HostClient's own flag in hcs *)
-Theorem https_only cwt hcs cs : Forall tagged cs ->
-  https_only_on_tls (obs_dials (trace cwt hcs cs)) (obs_writes (trace cwt hcs cs)).
+(* for EVERY timeout configuration (cwt = Client.WriteTimeout != 0, each stand-alone HostClient's own flag in hcs) and EVERY
+   address-preserving ConfigureClient function *)
+Theorem https_only_conf cwt conf hcs cs : conf_keeps_addr conf -> Forall tagged cs ->
+  https_only_on_tls (obs_dials (trace_conf cwt conf hcs cs)) (obs_writes (trace_conf cwt conf hcs cs)).
 Proof.
-  intros Ht w Hw Hs. destruct (trace_inv cwt hcs cs Ht) as (wd & HI & _).
+  intros Hk Ht w Hw Hs. destruct (trace_inv cwt conf hcs cs Ht) as (wd & HI & Hc & Hcf).
   destruct (obs_writes_in _ _ Hw) as (r & Hin & Es & Eh & Ev).
   destruct (inv_writes _ _ _ HI _ _ Hin) as (addr & wt & Hd & Hv).
   rewrite isHTTPS_spec, <- Es, Hs in Hd, Hv. exists addr. split.
   - apply obs_dial_intro in Hd. rewrite kind_tls_dialAddr in Hd. exact Hd.
-  - rewrite Ev. unfold via_clientb. destruct (r_via r); try discriminate. intros _. destruct Hv as (-> & _). rewrite Eh.
-    apply AddMissingPort_spec.
+  - rewrite Ev. unfold via_clientb. destruct (r_via r); try discriminate. intros _.
+    destruct Hv as (hx & X1 & -> & _). rewrite Hcf in X1. rewrite (Hk _ _ X1). cbn. rewrite Eh. apply AddMissingPort_spec.
 Qed.
+
+Theorem http_never_conf cwt conf hcs cs : conf_keeps_addr conf -> Forall tagged cs ->
+  http_never_on_tls (obs_dials (trace_conf cwt conf hcs cs)) (obs_writes (trace_conf cwt conf hcs cs)).
+Proof.
+  intros Hk Ht w Hw Hs. destruct (trace_inv cwt conf hcs cs Ht) as (wd & HI & Hc & Hcf).
+  destruct (obs_writes_in _ _ Hw) as (r & Hin & Es & Eh & Ev).
+  destruct (inv_writes _ _ _ HI _ _ Hin) as (addr & wt & Hd & Hv).
+  rewrite isHTTPS_spec, <- Es, Hs in Hd, Hv. exists addr. split.
+  - apply obs_dial_intro in Hd. rewrite kind_tls_dialAddr in Hd. exact Hd.
+  - rewrite Ev. unfold via_clientb. destruct (r_via r); try discriminate. intros _.
+    destruct Hv as (hx & X1 & -> & _). rewrite Hcf in X1. rewrite (Hk _ _ X1). cbn. rewrite Eh. apply AddMissingPort_spec.
+Qed.
+
+(* whatever ConfigureClient does (flip IsTLS, change Addr, change timeouts, fail): the TLS flag of the connection a request is
+   written to always equals the request's https-ness *)
+Theorem tls_matches_any_conf cwt conf hcs cs cid r : Forall tagged cs ->
+  In (EWrite cid r) (trace_conf cwt conf hcs cs) ->
+  exists addr k, In (EDial cid addr k) (trace_conf cwt conf hcs cs) /\ kind_tls k = https_scheme (r_scheme r).
+Proof.
+  intros Ht Hin. destruct (trace_inv cwt conf hcs cs Ht) as (wd & HI & _).
+  destruct (inv_writes _ _ _ HI _ _ Hin) as (addr & wt & Hd & _).
+  exists addr, (dialAddr (isHTTPS (r_scheme r)) wt). split; [exact Hd | apply kind_tls_dialAddr].
+Qed.
+
+Theorem https_only cwt hcs cs : Forall tagged cs ->
+  https_only_on_tls (obs_dials (trace cwt hcs cs)) (obs_writes (trace cwt hcs cs)).
+Proof. apply https_only_conf, conf_id_keeps_addr. Qed.
 
 Theorem http_never cwt hcs cs : Forall tagged cs ->
   http_never_on_tls (obs_dials (trace cwt hcs cs)) (obs_writes (trace cwt hcs cs)).
-Proof.
-  intros Ht w Hw Hs. destruct (trace_inv cwt hcs cs Ht) as (wd & HI & _).
-  destruct (obs_writes_in _ _ Hw) as (r & Hin & Es & Eh & Ev).
-  destruct (inv_writes _ _ _ HI _ _ Hin) as (addr & wt & Hd & Hv).
-  rewrite isHTTPS_spec, <- Es, Hs in Hd, Hv. exists addr. split.
-  - apply obs_dial_intro in Hd. rewrite kind_tls_dialAddr in Hd. exact Hd.
-  - rewrite Ev. unfold via_clientb. destruct (r_via r); try discriminate. intros _. destruct Hv as (-> & _). rewrite Eh.
-    apply AddMissingPort_spec.
-Qed.
+Proof. apply http_never_conf, conf_id_keeps_addr. Qed.
 
-Theorem dials_functional cwt hcs cs : Forall tagged cs -> dial_functional (obs_dials (trace cwt hcs cs)).
+Theorem dials_functional cwt conf hcs cs : Forall tagged cs -> dial_functional (obs_dials (trace_conf cwt conf hcs cs)).
 Proof.
-  intros Ht d1 d2 H1 H2 Hc. destruct (trace_inv cwt hcs cs Ht) as (wd & HI & _).
+  intros Ht d1 d2 H1 H2 Hc. destruct (trace_inv cwt conf hcs cs Ht) as (wd & HI & _).
   apply obs_dials_in in H1 as (k1 & H1 & E1). apply obs_dials_in in H2 as (k2 & H2 & E2). rewrite Hc in H1.
   destruct (inv_fun _ _ _ HI _ _ _ _ _ H1 H2) as [Ea Ek]. subst k2.
   destruct d1, d2. cbn in *. congruence.
@@ -479,21 +517,21 @@ Theorem https_write_kind cwt hcs cs cid r : Forall tagged cs ->
                   (r_via r = ViaClient -> wt = cwt) /\
                   (r_via r <> ViaClient -> exists i, nth_error hcs i = Some (addr, true, wt)).
 Proof.
-  intros Ht Hin Hs. destruct (trace_inv cwt hcs cs Ht) as (wd & HI & Hc).
+  intros Ht Hin Hs. destruct (trace_inv cwt conf_id hcs cs Ht) as (wd & HI & Hc & Hcf).
   destruct (inv_writes _ _ _ HI _ _ Hin) as (addr & wt & Hd & Hx).
   rewrite isHTTPS_spec, Hs in Hd, Hx. exists addr, wt. split; [destruct wt; exact Hd|].
-  destruct (r_via r); split; intros Hv; try congruence; try contradiction;
-    first [ destruct Hx as (_ & ->); exact Hc | exact Hx ].
+  destruct (r_via r); split; intros Hv; try congruence; try contradiction; try exact Hx.
+  destruct Hx as (hx & X1 & _ & -> & _). rewrite Hcf in X1. injection X1 as <-. cbn. exact Hc.
 Qed.
 
 (* requests that went through a stand-alone HostClient (directly, after redirects, or through the LBClient)
    were carried by a HostClient whose IsTLS equals the request's https-ness, on a connection to its Addr *)
-Theorem hostclient_writes_match cwt hcs cs cid r : Forall tagged cs ->
-  In (EWrite cid r) (trace cwt hcs cs) -> r_via r <> ViaClient ->
+Theorem hostclient_writes_match cwt conf hcs cs cid r : Forall tagged cs ->
+  In (EWrite cid r) (trace_conf cwt conf hcs cs) -> r_via r <> ViaClient ->
   exists i addr wt, nth_error hcs i = Some (addr, https_scheme (r_scheme r), wt) /\
-                    In (EDial cid addr (dialAddr (https_scheme (r_scheme r)) wt)) (trace cwt hcs cs).
+                    In (EDial cid addr (dialAddr (https_scheme (r_scheme r)) wt)) (trace_conf cwt conf hcs cs).
 Proof.
-  intros Ht Hin Hv. destruct (trace_inv cwt hcs cs Ht) as (wd & HI & _).
+  intros Ht Hin Hv. destruct (trace_inv cwt conf hcs cs Ht) as (wd & HI & _).
   destruct (inv_writes _ _ _ HI _ _ Hin) as (addr & wt & Hd & Hx).
   destruct (r_via r); [contradiction| |]; destruct Hx as (i & Hi); exists i, addr, wt; rewrite <- isHTTPS_spec; auto.
 Qed.
@@ -503,7 +541,7 @@ Qed.
 Theorem host_refuses i w hc r reps rest count maxred :
   nth_error (w_hcs w) i = Some hc -> hc_tls hc <> https_scheme (r_scheme r) ->
   follow (host_do i) w ((r, reps) :: rest) count maxred =
-    ({| w_cwt := w_cwt w; w_m := w_m w; w_ms := w_ms w; w_hcs := set_nth i hc (w_hcs w); w_next := w_next w |},
+    ({| w_cwt := w_cwt w; w_conf := w_conf w; w_m := w_m w; w_ms := w_ms w; w_hcs := set_nth i hc (w_hcs w); w_next := w_next w |},
      [ERefuse r ESchemeMismatch], OErr ESchemeMismatch).
 Proof.
   intros Hn Hm. cbn [follow]. unfold host_do. rewrite Hn.
